@@ -213,12 +213,12 @@ def _cfg_key(s):
             s["hybrid"] is not None, s["quality"])
 
 
-def cfg_for(s):
-    key = _cfg_key(s)
+def cfg_for(s, variant=None):
+    key = _cfg_key(s) + (variant,)
     c = _CFG.get(key)
     if c is None:
         t2 = {
-            "cache": {"enabled": False},
+            "cache": {"enabled": variant == "warm-cache"},
             "k_retrieval": s["k"], "sim_threshold": s["thr"],
             "tiers": [_T[c_] for c_ in s["tiers"]],
             "exact_recent_days": s["rd"], "clusters_top_m": s["tm"],
@@ -235,9 +235,12 @@ def cfg_for(s):
                 if mmr[1] is not None:
                     q["mmr"]["k"] = mmr[1]
             t2["quality"] = q
-        c = W.make_cfg({"t2": t2})
+        over = {"t2": t2}
+        if variant == "parallel":
+            over["perf"] = {"parallel": {"enabled": True, "t2": True, "max_workers": 2}}
+        c = W.make_cfg(over)
         got = c["t2"]
-        if got["k_retrieval"] != s["k"] or got["cache"]["enabled"] is not False or list(got["tiers"]) != t2["tiers"]:
+        if got["k_retrieval"] != s["k"] or got["cache"]["enabled"] is not (variant == "warm-cache") or list(got["tiers"]) != t2["tiers"]:
             raise HarnessError("validated config lost a setting: %r" % (got,))
         _CFG[key] = c
     return c
@@ -299,17 +302,25 @@ class _T1:
     graph_deltas: list = []
 
 
-def execute(eps, q, s):
-    """one execution of the real stage; returns a JSON-able observation"""
+def execute(eps, q, s, variant=None):
+    """one execution of the real stage; returns a JSON-able observation.
+    variant "parallel": the shard fan-out path (2 workers); variant "warm-cache": stage cache ON and the same query was
+    asked just before by another agent on the same state (nothing reset in between)."""
     W.reset_globals()
     _pin_clock()
     state = build_state(eps, s["hybrid"])
-    cfg = cfg_for(s)
+    cfg = cfg_for(s, variant)
     ctx = types.SimpleNamespace(turn_id=1, agent_id=s["scope"][1], enc=W.ENC, now=NOW_ISO, now_ms=W.NOW_MS,
                                 cfg=cfg, config=cfg)
     if s["slice"] is not None:
         ctx.slice_budgets = {"t2_k": s["slice"]}
     try:
+        if variant == "warm-cache":
+            other = "B" if s["scope"][1] != "B" else "A"
+            ctx0 = types.SimpleNamespace(turn_id=1, agent_id=other, enc=W.ENC, now=NOW_ISO, now_ms=W.NOW_MS, cfg=cfg, config=cfg)
+            if s["slice"] is not None:
+                ctx0.slice_budgets = {"t2_k": s["slice"]}
+            t2core.t2_semantic(ctx0, state, q, _T1())
         r = t2core.t2_semantic(ctx, state, q, _T1())
     except Exception as e:  # the stage must be total on this domain
         return {"exc": "%s: %s" % (type(e).__name__, e)}
@@ -649,6 +660,20 @@ def _worker(chunk, st: Stats, plan):
                 res = check(eps, q, s, getres, info)
                 st.add("validated")
                 case = {"episodes": eps, "query": q, "setting": s_json(s)}
+                if not res and n_dev(s) <= 1 and len(eps) >= 1:
+                    # the same input through the other execution paths of the stage must give the same answer
+                    plain = getres(s)
+                    for variant in ("parallel", "warm-cache"):
+                        if variant == "parallel" and len(eps) < 2:
+                            continue
+                        got = execute(eps, q, s, variant)
+                        st.add("transitions")
+                        st.add("variant_executions")
+                        if got != plain:
+                            res.append(("variant:%s:differs-from-plain:scope=%s" % (variant, s["scope"][0]),
+                                        "t2_semantic via %s path returned %s, plain sequential cache-off path %s; mem=%s q=%r setting{%s}" % (
+                                            variant, W.jd(got), W.jd(plain), _fmt_eps(eps), q, _fmt_s(s))))
+                    case["variants"] = True
                 for sig, what in res:
                     st.violation(sig, what, case)
                 if res:
@@ -720,8 +745,10 @@ def run(run: Run) -> None:
                 "real t2_semantic, validated = outcomes compared with the reference model + envelope; non-trivial = "
                 ">=2 hits returned or >=1 stored episode not returned"
                 % (len(PROTOS), len(DIMS), ", ".join("%s:%d" % (d, len(v)) for d, v in DIMS), run.notes["plan"]))
-    run.assume("parallel T2 (perf.parallel.t2), the embed-store reader and the LanceDB backend are outside this check "
-               "(in-memory index, sequential path); the T2 stage cache is disabled (C05 owns it)")
+    run.assume("the reference model is compared on the sequential, cache-off path; for every input with <=1 deviation the "
+               "parallel shard path (2 workers) and the cache-on path after the same query by another agent must return the "
+               "same observation as that path (full exploration of those paths is C09's and C05's); embed-store reader and "
+               "LanceDB backend are outside this check")
     run.assume("a zero vector has cosine 0 with every query (the index's convention); cosines of the alphabet are "
                "exactly -1, -0.7071, 0, 0.7071 or 1, thresholds hit only the exact values -1 and 0")
     run.assume("episode without timestamp: inside or outside the exact-tier window are both accepted (the statement is "
@@ -746,4 +773,13 @@ def replay(case):
             memo[key] = execute(eps, case["query"], x)
         return memo[key]
 
-    return check(eps, case["query"], s, getres)
+    res = check(eps, case["query"], s, getres)
+    if not res and case.get("variants"):
+        plain = getres(s)
+        for variant in ("parallel", "warm-cache"):
+            if variant == "parallel" and len(eps) < 2:
+                continue
+            got = execute(eps, case["query"], s, variant)
+            if got != plain:
+                res.append(("variant:%s:differs-from-plain:scope=%s" % (variant, s["scope"][0]), "variant %s: %s vs plain %s" % (variant, W.jd(got), W.jd(plain))))
+    return res
